@@ -77,6 +77,14 @@ func C15(t Tier) int {
 	bases := map[string]func() *world.World{
 		"empty":     func() *world.World { return world.New(world.Options{Accounts: []*world.Account{e.A, e.B, e.W, e.F}}) },
 		"populated": func() *world.World { return populated(e) },
+		// token (d,t) was minted by A and now belongs to B; denom d still belongs to A
+		"handed-over": func() *world.World {
+			w := populated(e)
+			if res := w.Send(world.TxSpec{Msgs: []sdk.Msg{pnfttypes.NewMsgTransferPNFTRequest("d", "t", e.A.Bech, e.B.Bech)}, Signers: []*world.Account{e.A}}); res.Code != 0 {
+				panic("handed-over base: " + res.Log)
+			}
+			return w
+		},
 		// the topic owner A has granted fee payer F a fee allowance, and F cannot afford a 1000umed fee itself: a transaction that
 		// names no fee granter is simply refused for insufficient funds - nobody else pays
 		"sponsored": func() *world.World {
@@ -115,7 +123,7 @@ func C15(t Tier) int {
 		var seq func(cur []int)
 		seq = func(cur []int) {
 			if len(cur) > 0 {
-				for arr := 0; arr < 6; arr++ {
+				for arr := 0; arr < 7; arr++ {
 					for fi, fee := range fees {
 						// build the message list for this arrangement
 						var msgs []sdk.Msg
@@ -179,6 +187,28 @@ func C15(t Tier) int {
 							if bn == "empty" {
 								expectOK = false
 							}
+						case 6: // explicit transactions of A whose LAST message acts on something A no longer owns: the whole transaction fails
+							if len(cur) != 1 || bn != "handed-over" {
+								continue
+							}
+							ex := []struct {
+								name string
+								msgs []sdk.Msg
+							}{
+								{"mint-then-burn-token-of-B", []sdk.Msg{pnfttypes.NewMsgMintPNFTRequest("d", "t9", "n", "", "", "", e.A.Bech, ""), pnfttypes.NewMsgBurnPNFTRequest("d", "t", e.A.Bech)}},
+								{"mint-then-transfer-token-of-B", []sdk.Msg{pnfttypes.NewMsgMintPNFTRequest("d", "t9", "n", "", "", "", e.A.Bech, ""), pnfttypes.NewMsgTransferPNFTRequest("d", "t", e.A.Bech, e.W.Bech)}},
+								{"hand-over-denom-then-mint", []sdk.Msg{pnfttypes.NewMsgTransferRequest("d", e.A.Bech, e.B.Bech), pnfttypes.NewMsgMintPNFTRequest("d", "t8", "n", "", "", "", e.A.Bech, "")}},
+								{"delete-writer-then-add-writer-twice", []sdk.Msg{aoltypes.NewMsgDeleteWriter("a", e.W.Bech, e.A.Bech), aoltypes.NewMsgAddWriter("a", "w", "", e.W.Bech, e.A.Bech), aoltypes.NewMsgAddWriter("a", "w", "", e.W.Bech, e.A.Bech)}},
+							}
+							if cur[0] >= len(ex) {
+								continue
+							}
+							msgs = append(msgs, ex[cur[0]].msgs...)
+							for range ex[cur[0]].msgs {
+								names = append(names, ex[cur[0]].name)
+							}
+							addSigner(e.A)
+							expectOK = false
 						case 5: // the same one-shot message twice (+ the rest of the sequence): the repetition fails, so nothing may stay
 							if len(cur) != 1 {
 								continue
@@ -217,7 +247,7 @@ func C15(t Tier) int {
 							expectOK = false // F cannot pay; the allowance may only be used when the transaction names A as granter
 						}
 						for i, mi := range cur {
-							if arr == 5 {
+							if arr == 5 || arr == 6 {
 								break
 							}
 							if (arr == 1 || arr == 3) && i == 0 {
